@@ -48,42 +48,26 @@ Lemma replace_impl_refines s pos1 count1 arr pos2 count2 :
 Proof.
   intros (Hb & Hl & Hz) H1 H2 H3 H4 Ha. pose proof HL as [HL1 HL2]. unfold replace_impl. cbv zeta.
   destruct (N.ltb_spec (len s) pos1); [lia|]. s64.
-  destruct (N.ltb_spec (len s - pos1) count1) as [Hc1|Hc1];
-  destruct (N.ltb_spec (L - pos1) count2) as [Hc2|Hc2].
-  - destruct (N.eqb_spec (len s - pos1) (L - pos1)) as [E|E]; cbn [bind].
-    + rewrite mcpy_blit by len_side. cbn [bind buf len].
-      eexists; split; [reflexivity|]. unfold abs, cut, std_replace. cbn [buf len]. pw.
-    + s64. destruct (N.ltb_spec (L - pos1 - (L - pos1)) (len s - pos1 - (len s - pos1))); [lia|].
-      rewrite mmove_blit by len_side. cbn [bind]. s64. rewrite (fin_blit L HL) by len_side. cbn [bind buf len].
-      rewrite mcpy_blit by len_side. cbn [bind].
-      eexists; split; [reflexivity|]. unfold abs, cut, std_replace. cbn [buf len]. pw.
-  - destruct (N.eqb_spec (len s - pos1) count2) as [E|E]; cbn [bind].
-    + rewrite mcpy_blit by len_side. cbn [bind buf len].
-      eexists; split; [reflexivity|]. unfold abs, cut, std_replace. cbn [buf len]. pw.
-    + s64. destruct (N.ltb_spec (L - pos1 - count2) (len s - pos1 - (len s - pos1))); [lia|].
-      rewrite mmove_blit by len_side. cbn [bind]. s64. rewrite (fin_blit L HL) by len_side. cbn [bind buf len].
-      rewrite mcpy_blit by len_side. cbn [bind].
-      eexists; split; [reflexivity|]. unfold abs, cut, std_replace. cbn [buf len]. pw.
-  - destruct (N.eqb_spec count1 (L - pos1)) as [E|E]; cbn [bind].
-    + rewrite mcpy_blit by len_side. cbn [bind buf len].
-      eexists; split; [reflexivity|]. unfold abs, cut, std_replace. cbn [buf len]. pw.
-    + s64. destruct (N.ltb_spec (L - pos1 - (L - pos1)) (len s - pos1 - count1)).
-      * rewrite mmove_blit by len_side. cbn [bind]. s64. rewrite (fin_blit L HL) by len_side. cbn [bind buf len].
-        rewrite mcpy_blit by len_side. cbn [bind].
-        eexists; split; [reflexivity|]. unfold abs, cut, std_replace. cbn [buf len]. pw.
-      * rewrite mmove_blit by len_side. cbn [bind]. s64. rewrite (fin_blit L HL) by len_side. cbn [bind buf len].
-        rewrite mcpy_blit by len_side. cbn [bind].
-        eexists; split; [reflexivity|]. unfold abs, cut, std_replace. cbn [buf len]. pw.
-  - destruct (N.eqb_spec count1 count2) as [E|E]; cbn [bind].
-    + rewrite mcpy_blit by len_side. cbn [bind buf len].
-      eexists; split; [reflexivity|]. unfold abs, cut, std_replace. cbn [buf len]. pw.
-    + s64. destruct (N.ltb_spec (L - pos1 - count2) (len s - pos1 - count1)).
-      * rewrite mmove_blit by len_side. cbn [bind]. s64. rewrite (fin_blit L HL) by len_side. cbn [bind buf len].
-        rewrite mcpy_blit by len_side. cbn [bind].
-        eexists; split; [reflexivity|]. unfold abs, cut, std_replace. cbn [buf len]. pw.
-      * rewrite mmove_blit by len_side. cbn [bind]. s64. rewrite (fin_blit L HL) by len_side. cbn [bind buf len].
-        rewrite mcpy_blit by len_side. cbn [bind].
-        eexists; split; [reflexivity|]. unfold abs, cut, std_replace. cbn [buf len]. pw.
+  set (c1 := if len s - pos1 <? count1 then len s - pos1 else count1).
+  assert (Hc1 : c1 = N.min count1 (len s - pos1))
+    by (unfold c1; destruct (N.ltb_spec (len s - pos1) count1); lia).
+  clearbody c1.
+  set (cl := if L - pos1 <? count2 then L - pos1 else count2).
+  assert (Hcl : cl = N.min count2 (L - pos1))
+    by (unfold cl; destruct (N.ltb_spec (L - pos1) count2); lia).
+  clearbody cl.
+  destruct (N.eqb_spec c1 cl) as [E|E]; cbn [bind].
+  - rewrite mcpy_blit by len_side. cbn [bind buf len].
+    eexists; split; [reflexivity|]. unfold abs, cut, std_replace. cbn [buf len]. abstract pw.
+  - s64.
+    set (rest := if L - pos1 - cl <? len s - pos1 - c1 then L - pos1 - cl else len s - pos1 - c1).
+    assert (Hrest : rest = N.min (len s - pos1 - c1) (L - pos1 - cl))
+      by (unfold rest; destruct (N.ltb_spec (L - pos1 - cl) (len s - pos1 - c1)); lia).
+    clearbody rest.
+    rewrite mmove_blit by len_side. cbn [bind]. s64. rewrite (fin_blit L HL) by len_side.
+    cbn [bind buf len].
+    rewrite mcpy_blit by len_side. cbn [bind].
+    eexists; split; [reflexivity|]. unfold abs, cut, std_replace. cbn [buf len]. abstract pw.
 Qed.
 
 Lemma swap_refines s o :
